@@ -262,3 +262,7 @@ pub fn generated_noise<'tcx>(tcx: TyCtxt<'tcx>, did: DefId) -> bool {
     }
     false
 }
+
+pub fn generic_arg_str<'tcx>(a: ty::GenericArg<'tcx>) -> String {
+    with_resolve_crate_name!(with_no_visible_paths!(with_no_trimmed_paths!(format!("{}", a))))
+}
